@@ -44,12 +44,18 @@ func (a Args) s(i int) []byte {
 	return nil
 }
 
+// pack keeps the raw results of a call (slices are kept as returned, not copied), so that
+// they can be rendered again later: a result must not change after it was returned.
+func pack(v ...any) []any { return v }
+
+func render(res []any) string { return fmt.Sprint(res...) }
+
 type fnEntry struct {
 	name string
 	gen  func(t *rapid.T) Args
 	// setup materialises the live (guarded) arguments, builds derived indexes
 	// and returns the pure call closure: result rendered as a string.
-	setup func(a Args, g *guard) func() string
+	setup func(a Args, g *guard) func() []any
 }
 
 func mod(x int64, n int) int {
@@ -153,134 +159,134 @@ var funcs = []fnEntry{
 	{"bitmap.IndexRank64", func(t *rapid.T) Args {
 		return Args{W: []vk.Words{genBM(t, false, false)}, N: []int64{int64(gen.Uniform(t, 3, "opt"))}}
 	},
-		func(a Args, g *guard) func() string {
+		func(a Args, g *guard) func() []any {
 			w := g.words(a.w(0))
-			return func() string {
+			return func() []any {
 				switch a.n(0) {
 				case 1:
-					return fmt.Sprint(bitmap.IndexRank64(w, false))
+					return pack(bitmap.IndexRank64(w, false))
 				case 2:
-					return fmt.Sprint(bitmap.IndexRank64(w, true))
+					return pack(bitmap.IndexRank64(w, true))
 				}
-				return fmt.Sprint(bitmap.IndexRank64(w))
+				return pack(bitmap.IndexRank64(w))
 			}
 		}},
 	{"bitmap.IndexRank128", func(t *rapid.T) Args { return Args{W: []vk.Words{genBM(t, false, false)}} },
-		func(a Args, g *guard) func() string {
+		func(a Args, g *guard) func() []any {
 			w := g.words(a.w(0))
-			return func() string { return fmt.Sprint(bitmap.IndexRank128(w)) }
+			return func() []any { return pack(bitmap.IndexRank128(w)) }
 		}},
 	{"bitmap.Rank64", func(t *rapid.T) Args { return Args{W: []vk.Words{genBM(t, true, false)}, N: []int64{r64(t, "i")}} },
-		func(a Args, g *guard) func() string {
+		func(a Args, g *guard) func() []any {
 			w := g.words(a.w(0))
 			idx := g.ints(bitmap.IndexRank64(w))
 			i := int32(mod(a.n(0), 64*len(w)))
-			return func() string { return fmt.Sprint(bitmap.Rank64(w, idx, i)) }
+			return func() []any { return pack(bitmap.Rank64(w, idx, i)) }
 		}},
 	{"bitmap.Rank128", func(t *rapid.T) Args { return Args{W: []vk.Words{genBM(t, true, false)}, N: []int64{r64(t, "i")}} },
-		func(a Args, g *guard) func() string {
+		func(a Args, g *guard) func() []any {
 			w := g.words(a.w(0))
 			idx := g.ints(bitmap.IndexRank128(w))
 			i := int32(mod(a.n(0), 64*len(w)))
-			return func() string { return fmt.Sprint(bitmap.Rank128(w, idx, i)) }
+			return func() []any { return pack(bitmap.Rank128(w, idx, i)) }
 		}},
 	{"bitmap.IndexSelect32", func(t *rapid.T) Args { return Args{W: []vk.Words{genBM(t, false, false)}} },
-		func(a Args, g *guard) func() string {
+		func(a Args, g *guard) func() []any {
 			w := g.words(a.w(0))
-			return func() string { return fmt.Sprint(bitmap.IndexSelect32(w)) }
+			return func() []any { return pack(bitmap.IndexSelect32(w)) }
 		}},
 	{"bitmap.IndexSelect32R64", func(t *rapid.T) Args { return Args{W: []vk.Words{genBM(t, false, false)}} },
-		func(a Args, g *guard) func() string {
+		func(a Args, g *guard) func() []any {
 			w := g.words(a.w(0))
-			return func() string { return fmt.Sprint(bitmap.IndexSelect32R64(w)) }
+			return func() []any { return pack(bitmap.IndexSelect32R64(w)) }
 		}},
 	{"bitmap.Select32", func(t *rapid.T) Args { return Args{W: []vk.Words{genBM(t, true, true)}, N: []int64{r64(t, "i")}} },
-		func(a Args, g *guard) func() string {
+		func(a Args, g *guard) func() []any {
 			w := g.words(a.w(0))
 			idx := g.ints(bitmap.IndexSelect32(w))
 			i := int32(mod(a.n(0), ones(w)))
-			return func() string { return fmt.Sprint(bitmap.Select32(w, idx, i)) }
+			return func() []any { return pack(bitmap.Select32(w, idx, i)) }
 		}},
 	{"bitmap.Select32R64", func(t *rapid.T) Args { return Args{W: []vk.Words{genBM(t, true, true)}, N: []int64{r64(t, "i")}} },
-		func(a Args, g *guard) func() string {
+		func(a Args, g *guard) func() []any {
 			w := g.words(a.w(0))
 			s, r := bitmap.IndexSelect32R64(w)
 			sidx, ridx := g.ints(s), g.ints(r)
 			i := int32(mod(a.n(0), ones(w)))
-			return func() string { return fmt.Sprint(bitmap.Select32R64(w, sidx, ridx, i)) }
+			return func() []any { return pack(bitmap.Select32R64(w, sidx, ridx, i)) }
 		}},
 	{"bitmap.NextOne", func(t *rapid.T) Args {
 		w := genBM(t, true, false)
 		i, e := genRange(t, 64*len(w), "r")
 		return Args{W: []vk.Words{w}, N: []int64{i, e}}
 	},
-		func(a Args, g *guard) func() string {
+		func(a Args, g *guard) func() []any {
 			w := g.words(a.w(0))
 			nb := 64 * len(w)
 			i := min(mod(a.n(0), nb+1), nb-1)
 			e := max(mod(a.n(1), nb+1), i)
-			return func() string { return fmt.Sprint(bitmap.NextOne(w, int32(i), int32(e))) }
+			return func() []any { return pack(bitmap.NextOne(w, int32(i), int32(e))) }
 		}},
 	{"bitmap.PrevOne", func(t *rapid.T) Args {
 		w := genBM(t, true, false)
 		i, e := genRange(t, 64*len(w), "r")
 		return Args{W: []vk.Words{w}, N: []int64{i, e}}
 	},
-		func(a Args, g *guard) func() string {
+		func(a Args, g *guard) func() []any {
 			w := g.words(a.w(0))
 			nb := 64 * len(w)
 			e := max(mod(a.n(1), nb+1), 1)
 			i := min(mod(a.n(0), nb+1), e)
-			return func() string { return fmt.Sprint(bitmap.PrevOne(w, int32(i), int32(e))) }
+			return func() []any { return pack(bitmap.PrevOne(w, int32(i), int32(e))) }
 		}},
 	{"bitmap.Slice", func(t *rapid.T) Args {
 		w := genBM(t, false, false)
 		i, e := genRange(t, 64*len(w), "r")
 		return Args{W: []vk.Words{w}, N: []int64{i, e}}
 	},
-		func(a Args, g *guard) func() string {
+		func(a Args, g *guard) func() []any {
 			w := g.words(a.w(0))
 			nb := 64 * len(w)
 			i := mod(a.n(0), nb+1)
 			e := max(mod(a.n(1), nb+1), i)
-			return func() string { return fmt.Sprint(bitmap.Slice(w, int32(i), int32(e))) }
+			return func() []any { return pack(bitmap.Slice(w, int32(i), int32(e))) }
 		}},
 	{"bitmap.ToArray", func(t *rapid.T) Args { return Args{W: []vk.Words{genBM(t, false, false)}} },
-		func(a Args, g *guard) func() string {
+		func(a Args, g *guard) func() []any {
 			w := g.words(a.w(0))
-			return func() string { return fmt.Sprint(bitmap.ToArray(w)) }
+			return func() []any { return pack(bitmap.ToArray(w)) }
 		}},
 	{"bitmap.Getw", func(t *rapid.T) Args {
 		return Args{W: []vk.Words{genBM(t, true, false)}, N: []int64{int64(gen.Uniform(t, len(getwWidths), "w")), r64(t, "i")}}
 	},
-		func(a Args, g *guard) func() string {
+		func(a Args, g *guard) func() []any {
 			w := g.words(a.w(0))
 			width := getwWidths[mod(a.n(0), len(getwWidths))]
 			i := int32(mod(a.n(1), 64*len(w)/int(width)))
-			return func() string { return fmt.Sprint(bitmap.Getw(w, i, width)) }
+			return func() []any { return pack(bitmap.Getw(w, i, width)) }
 		}},
 	{"bitmap.Get+Get1", func(t *rapid.T) Args { return Args{W: []vk.Words{genBM(t, true, false)}, N: []int64{r64(t, "i")}} },
-		func(a Args, g *guard) func() string {
+		func(a Args, g *guard) func() []any {
 			w := g.words(a.w(0))
 			i := int32(mod(a.n(0), 64*len(w)))
-			return func() string { return fmt.Sprint(bitmap.Get(w, i), bitmap.Get1(w, i)) }
+			return func() []any { return pack(bitmap.Get(w, i), bitmap.Get1(w, i)) }
 		}},
 	{"bitmap.SafeGet+SafeGet1", func(t *rapid.T) Args {
 		return Args{W: []vk.Words{genBM(t, false, false)}, N: []int64{int64(int32(gen.U64(t, "i")))}}
 	},
-		func(a Args, g *guard) func() string {
+		func(a Args, g *guard) func() []any {
 			w := g.words(a.w(0))
 			i := int32(a.n(0))
-			return func() string { return fmt.Sprint(bitmap.SafeGet(w, i), bitmap.SafeGet1(w, i)) }
+			return func() []any { return pack(bitmap.SafeGet(w, i), bitmap.SafeGet1(w, i)) }
 		}},
 	{"bitmap.FromStr32", func(t *rapid.T) Args {
 		s := gen.Bytes(t, 0, 12, "s")
 		return Args{S: []vk.Hex{s}, N: []int64{int64(gen.Uniform(t, 8*len(s)+10, "from")), int64(gen.Uniform(t, 33, "w"))}}
 	},
-		func(a Args, g *guard) func() string {
+		func(a Args, g *guard) func() []any {
 			s := g.str(a.s(0))
 			from, w := int32(mod(a.n(0), 1<<20)), int32(mod(a.n(1), 33))
-			return func() string { return fmt.Sprint(bitmap.FromStr32(s, from, from+w)) }
+			return func() []any { return pack(bitmap.FromStr32(s, from, from+w)) }
 		}},
 	{"bitmap.Join", func(t *rapid.T) Args {
 		n := gen.Uniform(t, 20, "n")
@@ -290,10 +296,10 @@ var funcs = []fnEntry{
 		}
 		return Args{W: []vk.Words{v}, N: []int64{int64(gen.Uniform(t, len(getwWidths), "w"))}}
 	},
-		func(a Args, g *guard) func() string {
+		func(a Args, g *guard) func() []any {
 			v := g.words(a.w(0))
 			width := getwWidths[mod(a.n(0), len(getwWidths))]
-			return func() string { return fmt.Sprint(bitmap.Join(v, width)) }
+			return func() []any { return pack(bitmap.Join(v, width)) }
 		}},
 	{"bitmap.Of", func(t *rapid.T) Args {
 		n := gen.Uniform(t, 12, "n")
@@ -305,7 +311,7 @@ var funcs = []fnEntry{
 		}
 		return Args{N: ns}
 	},
-		func(a Args, g *guard) func() string {
+		func(a Args, g *guard) func() []any {
 			var pos []int32
 			for _, p := range a.N[min(1, len(a.N)):] {
 				pos = append(pos, int32(mod(p, 1<<20)))
@@ -313,76 +319,76 @@ var funcs = []fnEntry{
 			sort.Slice(pos, func(i, j int) bool { return pos[i] < pos[j] })
 			gp := g.ints(pos)
 			n := int32(a.n(0))
-			return func() string { return fmt.Sprint(bitmap.Of(gp, n), bitmap.Of(gp)) }
+			return func() []any { return pack(bitmap.Of(gp, n), bitmap.Of(gp)) }
 		}},
 	// ------------------------------------------------------------ bmtree
 	{"bmtree.PathToIndex+Loose", func(t *rapid.T) Args {
 		mask := genMask(t, 30)
 		return Args{N: []int64{mask, r64(t, "l"), r64(t, "prefix")}}
 	},
-		func(a Args, g *guard) func() string {
+		func(a Args, g *guard) func() []any {
 			mask := int32(max(mod(a.n(0), 1<<31), 1))
 			tr := model.NewTree(mask)
 			l := mod(a.n(1), tr.H+1)
 			prefix := uint64(a.n(2)) & (uint64(1)<<uint(l) - 1)
 			p := model.PathWord(prefix, l, tr.H)
 			stored := tr.Stored[l]
-			return func() string {
+			return func() []any {
 				i, has := bmtree.PathToIndexLoose(mask, p)
 				if stored {
-					return fmt.Sprint(i, has, bmtree.PathToIndex(mask, p))
+					return pack(i, has, bmtree.PathToIndex(mask, p))
 				}
-				return fmt.Sprint(i, has)
+				return pack(i, has)
 			}
 		}},
 	{"bmtree.IndexToPath", func(t *rapid.T) Args { return Args{N: []int64{int64(gen.Uniform(t, 31, "h")), r64(t, "idx")}} },
-		func(a Args, g *guard) func() string {
+		func(a Args, g *guard) func() []any {
 			h := mod(a.n(0), 31)
 			idx := int32(a.n(1) % (int64(1)<<uint(h+1) - 1))
-			return func() string { return fmt.Sprint(bmtree.IndexToPath(int32(h), idx)) }
+			return func() []any { return pack(bmtree.IndexToPath(int32(h), idx)) }
 		}},
 	{"bmtree.AllPaths", func(t *rapid.T) Args {
 		mask := genMask(t, 30)
 		return Args{N: []int64{mask, r64(t, "centre"), int64(gen.Uniform(t, 40, "span")), int64(gen.U64(t, "lowf") & 0xffffffff), int64(gen.U64(t, "lowt") & 0xffffffff)}}
 	},
-		func(a Args, g *guard) func() string {
+		func(a Args, g *guard) func() []any {
 			mask := int32(max(mod(a.n(0), 1<<31), 1))
 			tr := model.NewTree(mask)
 			c := uint64(a.n(1)) % (uint64(1) << uint(tr.H))
 			from := c<<32 | uint64(a.n(3))&0xffffffff
 			to := (c+uint64(mod(a.n(2), 40)))<<32 | uint64(a.n(4))&0xffffffff
-			return func() string { return fmt.Sprint(bmtree.AllPaths(mask, from, to)) }
+			return func() []any { return pack(bmtree.AllPaths(mask, from, to)) }
 		}},
 	{"bmtree.Decode", func(t *rapid.T) Args { return Args{N: []int64{genMask(t, 8)}, W: []vk.Words{genBM(t, false, false)}} },
-		func(a Args, g *guard) func() string {
+		func(a Args, g *guard) func() []any {
 			mask := int32(max(mod(a.n(0), 1<<9), 1))
 			bm := g.words(a.w(0))
-			return func() string { return fmt.Sprint(bmtree.Decode(mask, bm)) }
+			return func() []any { return pack(bmtree.Decode(mask, bm)) }
 		}},
 	{"bmtree.PathOf+PathsOf", func(t *rapid.T) Args {
 		return Args{S: genKeysSorted(t, 1), N: []int64{int64(gen.Uniform(t, 20, "from")), int64(gen.Uniform(t, 33, "h")), int64(gen.Uniform(t, 2, "dedup"))}}
 	},
-		func(a Args, g *guard) func() string {
+		func(a Args, g *guard) func() []any {
 			keys := g.keys(toBytes(a.S))
 			from, h, dedup := int32(mod(a.n(0), 64)), int32(mod(a.n(1), 33)), a.n(2)&1 == 1
-			return func() string {
+			return func() []any {
 				first := uint64(0)
 				if len(keys) > 0 {
 					first = bmtree.PathOf(keys[0], from, h)
 				}
-				return fmt.Sprint(first, bmtree.PathsOf(keys, from, h, dedup))
+				return pack(first, bmtree.PathsOf(keys, from, h, dedup))
 			}
 		}},
 	{"bmtree.NewPath+PathLen+PathHeight+PathBits+PathMask+PathStr", func(t *rapid.T) Args {
 		return Args{N: []int64{int64(gen.Uniform(t, 33, "h")), r64(t, "l"), r64(t, "prefix")}}
 	},
-		func(a Args, g *guard) func() string {
+		func(a Args, g *guard) func() []any {
 			h := mod(a.n(0), 33)
 			l := mod(a.n(1), h+1)
 			prefix := uint64(a.n(2)) & (uint64(1)<<uint(l) - 1)
-			return func() string {
+			return func() []any {
 				p := bmtree.NewPath(prefix<<uint(h-l), int32(l), int32(h))
-				return fmt.Sprint(p, bmtree.PathLen(p), bmtree.PathHeight(p), bmtree.PathBits(p), bmtree.PathMask(p), bmtree.PathStr(p), bmtree.Height(int32(1)<<uint(min(h, 30))))
+				return pack(p, bmtree.PathLen(p), bmtree.PathHeight(p), bmtree.PathBits(p), bmtree.PathMask(p), bmtree.PathStr(p), bmtree.Height(int32(1)<<uint(min(h, 30))))
 			}
 		}},
 	// ------------------------------------------------------------ bitstr
@@ -391,14 +397,14 @@ var funcs = []fnEntry{
 		f, e := genRange(t, 8*len(s), "r")
 		return Args{S: []vk.Hex{s}, N: []int64{f, e}}
 	},
-		func(a Args, g *guard) func() string {
+		func(a Args, g *guard) func() []any {
 			s := g.str(a.s(0))
 			nb := 8 * len(s)
 			f := mod(a.n(0), nb+1)
 			e := max(mod(a.n(1), nb+1), f)
-			return func() string {
+			return func() []any {
 				enc := bitstr.New(s, int32(f), int32(e))
-				return fmt.Sprint(enc, bitstr.Len(enc))
+				return pack(enc, bitstr.Len(enc))
 			}
 		}},
 	{"bitstr.Cmp", func(t *rapid.T) Args {
@@ -410,7 +416,7 @@ var funcs = []fnEntry{
 		f2, e2 := genRange(t, 8*len(s2), "r2")
 		return Args{S: []vk.Hex{s1, s2}, N: []int64{f1, e1, f2, e2}}
 	},
-		func(a Args, g *guard) func() string {
+		func(a Args, g *guard) func() []any {
 			mk := func(s []byte, fi, ei int) []byte {
 				nb := 8 * len(s)
 				f := mod(a.n(fi), nb+1)
@@ -418,7 +424,7 @@ var funcs = []fnEntry{
 				return g.bytes(bitstr.New(string(s), int32(f), int32(e)))
 			}
 			x, y := mk(a.s(0), 0, 1), mk(a.s(1), 2, 3)
-			return func() string { return fmt.Sprint(bitstr.Cmp(x, y), bitstr.Cmp(y, x), bitstr.Len(x)) }
+			return func() []any { return pack(bitstr.Cmp(x, y), bitstr.Cmp(y, x), bitstr.Len(x)) }
 		}},
 	{"bitstr.CmpUpto+StrCmpUpto", func(t *rapid.T) Args {
 		s := gen.Bytes(t, 0, 20, "s")
@@ -430,7 +436,7 @@ var funcs = []fnEntry{
 		f, e := genRange(t, 8*len(s), "r")
 		return Args{S: []vk.Hex{s, av}, N: []int64{f, e}}
 	},
-		func(a Args, g *guard) func() string {
+		func(a Args, g *guard) func() []any {
 			s := a.s(0)
 			nb := 8 * len(s)
 			f := mod(a.n(0), nb+1)
@@ -438,25 +444,25 @@ var funcs = []fnEntry{
 			b := g.bytes(bitstr.New(string(s), int32(f), int32(e)))
 			ab := g.bytes(a.s(1))
 			as := g.str(a.s(1))
-			return func() string { return fmt.Sprint(bitstr.CmpUpto(ab, b), bitstr.StrCmpUpto(as, b)) }
+			return func() []any { return pack(bitstr.CmpUpto(ab, b), bitstr.StrCmpUpto(as, b)) }
 		}},
 	// ------------------------------------------------------------ bitword
 	{"bitword.FromStr+Get+ToStr", func(t *rapid.T) Args {
 		return Args{S: []vk.Hex{gen.Bytes(t, 0, 16, "s")}, N: []int64{int64(gen.Uniform(t, 4, "w")), r64(t, "i")}}
 	},
-		func(a Args, g *guard) func() string {
+		func(a Args, g *guard) func() []any {
 			n := bwWidths[mod(a.n(0), 4)]
 			s := g.str(a.s(0))
 			nw := 8 * len(s) / n
 			i := mod(a.n(1), nw)
-			return func() string {
+			return func() []any {
 				bw := bitword.BitWord[n]
 				ws := bw.FromStr(s)
 				got := byte(0)
 				if nw > 0 {
 					got = bw.Get(s, i)
 				}
-				return fmt.Sprint(ws, got, []byte(bw.ToStr(ws)))
+				return pack(ws, got, []byte(bw.ToStr(ws)))
 			}
 		}},
 	{"bitword.ToStr", func(t *rapid.T) Args {
@@ -467,14 +473,14 @@ var funcs = []fnEntry{
 		}
 		return Args{S: []vk.Hex{ws}, N: []int64{int64(w)}}
 	},
-		func(a Args, g *guard) func() string {
+		func(a Args, g *guard) func() []any {
 			n := bwWidths[mod(a.n(0), 4)]
 			src := append([]byte(nil), a.s(0)...)
 			for i := range src {
 				src[i] &= byte(1<<uint(n) - 1)
 			}
 			ws := g.bytes(src)
-			return func() string { return fmt.Sprint([]byte(bitword.BitWord[n].ToStr(ws))) }
+			return func() []any { return pack([]byte(bitword.BitWord[n].ToStr(ws))) }
 		}},
 	{"bitword.FirstDiff", func(t *rapid.T) Args {
 		x := gen.Bytes(t, 0, 12, "a")
@@ -485,12 +491,12 @@ var funcs = []fnEntry{
 		}
 		return Args{S: []vk.Hex{x, y}, N: []int64{int64(gen.Uniform(t, 4, "w")), int64(gen.Uniform(t, 100, "from")), int64(gen.Uniform(t, 102, "end")) - 1}}
 	},
-		func(a Args, g *guard) func() string {
+		func(a Args, g *guard) func() []any {
 			n := bwWidths[mod(a.n(0), 4)]
 			x, y := g.str(a.s(0)), g.str(a.s(1))
 			from := mod(a.n(1), 200)
 			end := int(max(a.n(2), -1))
-			return func() string { return fmt.Sprint(bitword.BitWord[n].FirstDiff(x, y, from, end)) }
+			return func() []any { return pack(bitword.BitWord[n].FirstDiff(x, y, from, end)) }
 		}},
 	{"bitword.FromStrs+ToStrs", func(t *rapid.T) Args {
 		k := gen.Uniform(t, 5, "k")
@@ -500,14 +506,14 @@ var funcs = []fnEntry{
 		}
 		return Args{S: ss, N: []int64{int64(gen.Uniform(t, 4, "w"))}}
 	},
-		func(a Args, g *guard) func() string {
+		func(a Args, g *guard) func() []any {
 			n := bwWidths[mod(a.n(0), 4)]
 			strs := g.keys(toBytes(a.S))
-			return func() string {
+			return func() []any {
 				bw := bitword.BitWord[n]
 				wss := bw.FromStrs(strs)
 				back := bw.ToStrs(wss)
-				return fmt.Sprintf("%v %x", wss, back)
+				return pack(wss, back)
 			}
 		}},
 	// ------------------------------------------------------------ sigbits
@@ -521,33 +527,33 @@ var funcs = []fnEntry{
 		}
 		return Args{S: ks}
 	},
-		func(a Args, g *guard) func() string {
+		func(a Args, g *guard) func() []any {
 			bs := toBytes(a.S)
 			if len(bs) == 0 {
 				bs = [][]byte{[]byte("k")}
 			}
 			keys := g.keys(bs)
-			return func() string { return fmt.Sprint(sigbits.FirstDiffBits(keys)) }
+			return func() []any { return pack(sigbits.FirstDiffBits(keys)) }
 		}},
 	{"sigbits.New+CountPrefixes", func(t *rapid.T) Args {
 		return Args{S: genKeysSorted(t, 2), N: []int64{r64(t, "s"), r64(t, "e"), int64(1 + gen.Uniform(t, 70, "m"))}}
 	},
-		func(a Args, g *guard) func() string {
+		func(a Args, g *guard) func() []any {
 			keys := g.keys(sortedUnique(a.S, 2))
 			sb := sigbits.New(keys)
 			n := len(keys)
 			s := mod(a.n(0), n-1)
 			e := s + 2 + mod(a.n(1), n-s-1)
 			m := int32(1 + mod(a.n(2), 80))
-			return func() string { return fmt.Sprint(sb.CountPrefixes(int32(s), int32(e), m)) }
+			return func() []any { return pack(sb.CountPrefixes(int32(s), int32(e), m)) }
 		}},
 	{"sigbits.ShardByPrefix", func(t *rapid.T) Args {
 		return Args{S: genKeysSorted(t, 1), N: []int64{int64(1 + gen.Uniform(t, 6, "ms"))}}
 	},
-		func(a Args, g *guard) func() string {
+		func(a Args, g *guard) func() []any {
 			keys := g.keys(sortedUnique(a.S, 1))
 			ms := int32(1 + mod(a.n(0), 12))
-			return func() string { return fmt.Sprint(sigbits.ShardByPrefix(keys, ms)) }
+			return func() []any { return pack(sigbits.ShardByPrefix(keys, ms)) }
 		}},
 }
 
